@@ -174,7 +174,7 @@ def main(tier: str, seed: int) -> int:
         wl = scenarios.test_asset("wireless_wan_network_config.yaml")
         traces += run_env("wireless+all_actions", generated_cfg(wl, rng, 3), 60, 1, rng, rec, chk)
     res = tlc.validate("RequestsTrace", traces, chunk=60)
-    common.judge_traces(chk, "Requests", traces, res, sig_fn)
+    common.judge_traces(chk, "Requests", traces, res, sig_fn, selftest="RequestsTrace")
     for tr in traces[:1]:
         chk.sample({"requests": tr["meta"]["requests"][:3], "events": tr["ev"][:3]})
     chk.cov["mask_records"] = sum(len(t["ev"]) for t in traces)
